@@ -144,9 +144,11 @@ def run_convert(case):
     V = np.asarray(Operator(qc).data)
     names = [g[0] for g in case["gates"]]
     labels = set()
+    # the flag is given as a bool, a numpy bool (result of a comparison) or 0/1, depending on the case
+    flag = (bool, np.bool_, int)[(len(case["gates"]) + nq) % 3](case["aps"])
     try:
         circ, rules = call_with_timeout("qiskit_converter", 10, qiskit_converter, qc,
-                                        allow_post_selection=case["aps"])
+                                        allow_post_selection=flag)
     except ValueError as e:
         why = refusal_legit(case)
         if why is None:
